@@ -258,7 +258,7 @@ func (g *SG) stmt(nest int, inLoop, mayReturn bool) []Stmt {
 			// (the host sees the last index afterwards); its value is not read inside the rule
 			g.Stats["forrange_key_is_injected"]++
 			body := append([]Stmt{g.tr()}, g.Block(nest+1, true, true)[1:]...)
-			return []Stmt{&ForRange{Key: "PI64", Cont: c, Body: body}}
+			return []Stmt{&ForRange{Key: []string{"PI64", "H.I64", "H.In.X"}[r.Intn(3)], Cont: c, Body: body}}
 		}
 		body := []Stmt{g.tv(&Ref{kv}), g.tv(&Elem{Cont: c, KeyVar: kv})}
 		body = append(body, g.Block(nest+1, true, true)[1:]...)
